@@ -130,3 +130,101 @@ PROPS = {
                 assumptions=["exact transformations are exact for every value involved (dyadic grid; checked)",
                              "inexact transformations: each problem is compared with its own exact oracle"]),
 }
+
+
+def _t(level, note, technique):
+    return dict(level=level, note=note, technique=technique)
+
+
+_ORACLE = ("event log of real calls (inputs and results as bit patterns) judged offline by an exact-rational reference "
+           "(python fractions)")
+
+TEXT = {
+    "C01": _t("Every in-range result of the real Linear strategy on thousands of generated data sets (all spacing classes incl. "
+              "ulp-clustered knots, f64/f32, 1..4-d and dynamic data, all entry points; knots and their neighbouring floats "
+              "enumerated) is compared with the exact line through the bracketing points; held-on-K-executions, not a proof.",
+              "exact arithmetic of python fractions; tolerance 16*2^-52*Y derived from the formula (11u*Y); bracket found by exact comparison",
+              "runtime monitoring: " + _ORACLE + " (exact line through the bracket)"),
+    "C02": _t("Model-free runtime check of the returned samples: per interval an exact cubic is fitted to 4 returned values and "
+              "must predict the others; one-sided first/second derivatives of adjacent fits must agree at every interior knot; "
+              "knots must be reproduced - over all boundary selections, n=3..40, non-uniform axes, lanes.",
+              "tolerance = rounding unit of the spline * exact amplification of the differentiation weights actually used",
+              "runtime monitoring: event log + offline exact Lagrange fits of returned samples (C2 / one-cubic-per-interval residuals)"),
+    "C03": _t("Every returned value is compared with an independently computed exact spline (moment formulation, exact sparse "
+              "elimination) for all 25 ordered boundary pairs, Periodic, whole-set and per-lane selections; end-condition residuals "
+              "are evaluated from exact fits of the returned end-interval samples. Native optimised and unoptimised builds.",
+              "reference = unique interpolating spline in exact arithmetic; tolerance 2^13*u*(1+mesh ratio)*G*max(1,|t|,|1-t|)^3",
+              "runtime monitoring: " + _ORACLE + " (independent exact spline + boundary residuals)"),
+    "C04": _t("Every result of the real Bilinear strategy on generated grids is compared with the exact bilinear blend; grid-line and "
+              "transpose relations are checked in-process against the crate's own Linear / second Bilinear interpolator.",
+              "tolerance 64*2^-52*Z (three nested two-point formulas), 80 / 128 for the relations",
+              "runtime monitoring: " + _ORACLE + " + in-process differential relations"),
+    "C05": _t("In-process monitor over every strategy x entry point x edge query (ends, 1-2 ulps either side, +-inf, NaN, +-MAX) and "
+              "one bad element at every position of every batch shape; oracle is the closed-range predicate on the harness's copy of the axis.",
+              "observation gate: every (strategy family, entry point) seen accepting and rejecting",
+              "runtime monitoring: in-process assertion against a shadow predicate, outcome classification via catch_unwind"),
+    "C06": _t("With extrapolation on: every finite query answered, in-range results bit-identical to the non-extrapolating interpolator "
+              "(in-process), outside results compared offline with the exact end piece (line / cubic / border cell form) up to 1e4 spans away.",
+              "tolerances scale with |t| as derived (1+2|t| resp. max(1,|t|)^3)",
+              "runtime monitoring: in-process bitwise differential + " + _ORACLE),
+    "C07": _t("Queries x+k*P (k up to 1e6), images of both range ends and floats 1-3 ulps around them are compared with the exact periodic "
+              "spline at the exactly wrapped float query, with a Lipschitz-aware bound for the rounding of the wrapped argument.",
+              "bound = spline tolerance + (2L + ...)*delta with exact L >= |S'| and delta = 4u(|q|+|x0|+P); circle distance",
+              "runtime monitoring: " + _ORACLE + " (exact wrap + exact periodic spline)"),
+    "C08": _t("For a random lane j of n-d data (0..5 trailing axes, zero-length and non-square shapes, per-lane boundaries) results must "
+              "not change in any bit when every other lane is replaced by NaN/inf/huge/random values and other boundaries are re-drawn; "
+              "lane j is also checked as a single-lane problem by the exact oracle.",
+              "bit-identity with a per-lane interpolator is observed and reported, not required",
+              "runtime monitoring: in-process bitwise differential under perturbation + exact oracle per lane"),
+    "C09": _t("Bitwise agreement of interp_array / interp / interp_scalar / *_into and the shape law over every query dimension type "
+              "(Ix0..Ix4, dynamic, empty) and data Ix1..Ix6/IxDyn; placement probed with a recording user strategy that writes f(x, lane).",
+              "placement code f(x, lane) is injective on the queries used",
+              "runtime monitoring: in-process bitwise differential between entry points + recording strategy as placement probe"),
+    "C10": _t("The full decision table is enumerated (strategy x rank x length x axis length x order pattern x boundary array shape x "
+              "periodic ends x (2-D) x and y independently, ~25k rows): Ok iff an independent validator finds no violated requirement, "
+              "otherwise an error kind belonging to a violated requirement; never a panic.",
+              "error messages are not compared; statically rank-deficient data can only be constructed (must not panic)",
+              "runtime monitoring: enumerated decision table against an independent validator (shadow model)"),
+    "C11": _t("get_lower_index / get_index_left_of on every (length<=40, guess position, rank) combination (exhaustive) and on random axes "
+              "up to 1e4 points of all spacing classes, f64/f32/i32/i64, compared with an independent search; never a panic.",
+              "oracle = std partition_point cross-checked by linear scan; precondition span and (len-1)/span finite",
+              "runtime monitoring: in-process comparison with an independent search; bounded-exhaustive + random"),
+    "C12": _t("monotonic_prop on every relation word up to 9 (quick) / 12 (thorough) pairs, four element types, strided and reversed views, "
+              "every NaN placement in vectors up to length 8, random long vectors, against an independent classifier.",
+              "exhaustive up to the stated bound (sufficient to separate automata of <= 7 states); longer vectors sampled",
+              "runtime monitoring: exhaustive enumeration against an independent classifier"),
+    "C13": _t("Differential against the all-owned C-order baseline: each argument (data, x, y, queries, buffers, storage kind) is "
+              "re-materialised with random layouts (permuted memory order, steps, reversed axes, windows) and every call's result/outcome must be bit-identical.",
+              "storage kinds of data/axes instantiated for f64 data Ix2/IxDyn (1-D), Ix3/IxDyn (2-D); query storage kinds on concrete types",
+              "runtime monitoring: in-process bitwise differential across memory layouts and ownership"),
+    "C14": _t("Buffers are windows into a sentinel-filled allocation: after Ok no sentinel inside, contents equal the allocating variant, "
+              "every element outside unchanged; every wrong shape (axis +-1, permutations, same count, rank +-1) and x/y shape mismatch must panic.",
+              "sentinel = NaN payload no computation on finite data can produce; sanitizer legs add out-of-allocation / uninitialised reads",
+              "runtime monitoring: sentinel windows + outcome classification; AddressSanitizer / memcheck / Miri legs in the thorough tier"),
+    "C15": _t("Exact unit changes (data*2^j, axis*2^k with converted derivative values, negation, dyadic-grid shifts, independent x/y factors) "
+              "are compared bitwise in optimised and unoptimised builds; inexact changes and superpositions are each compared with their own exact oracle.",
+              "the sign of an exactly zero result is not judged (+0 == -0)",
+              "runtime monitoring: in-process bitwise metamorphic relations (two build profiles) + exact oracle for inexact relations"),
+    "C16": _t("Data sampled exactly (integer arithmetic) from polynomials with dyadic coefficients; every result is compared with the exact "
+              "polynomial value at the float query, in range and extrapolated, for every admissible boundary combination and per-lane polynomials.",
+              "tolerances as C01/C03/C04",
+              "runtime monitoring: " + _ORACLE + " (generating polynomial evaluated exactly)"),
+    "C17": _t("Random histories mixing all entry points (incl. failing and panicking calls) are replayed in order, permuted and split over 2..16 "
+              "threads sharing one interpolator; every result must equal the fresh-interpolator reference bit for bit; Debug rendering unchanged; "
+              "tickets record the interleavings and overlaps actually observed. Send+Sync: compile-time assertion.",
+              "schedules sampled, not enumerated; Miri (seeded scheduler, race detector) and ThreadSanitizer legs in the thorough tier",
+              "runtime monitoring: history replay against a fresh-instance reference, thread traces; Miri / TSan race detection; compile-time assertion for Send+Sync"),
+    "C18": _t("Recording / failing user strategies (declared minimum 0..4) observe exactly what the builder and the query entry points hand "
+              "them: validated axes, unmodified query values, target shape, target address and strides per query; injected errors must arrive unchanged.",
+              "axes shorter than 2 are not judged",
+              "runtime monitoring: the crate's own extension point as a probe (recording strategies), failure injection at every call index"),
+    "C19": _t("The finite instantiation set (170 interpolator types x 5 query dimension types) is enumerated: with the hook every cast event "
+              "must relabel identical types (name, size, alignment) and occur the expected number of times; fast path, general path and per-element "
+              "interp must agree bitwise; the same program runs under Miri as UB oracle.",
+              "type_name distinguishes the types involved; Miri is the independent arbiter",
+              "runtime monitoring: invariant hook in cast_unchecked + differential paths; Miri UB interpreter over the enumerated instantiations"),
+    "C20": _t("Per query every non-bracketing row/node is replaced by NaN/inf/huge/random values and every non-bracketing axis value is moved "
+              "strictly between its neighbours; the result must not change in any bit (in range and extrapolated, all lanes, ulp-clustered axes).",
+              "bracket = harness linear scan",
+              "runtime monitoring: in-process bitwise differential under poisoning of non-bracketing inputs"),
+}
